@@ -43,7 +43,7 @@ class QiskitExporter(QCircuitExporter):
                 pass
 
             elif hasattr(qc, g_name):
-                if p:
+                if p is not None:
                     getattr(qc, g_name)(p, *w)
                 else:
                     getattr(qc, g_name)(*w)
